@@ -358,14 +358,19 @@ theorem opLock_cons (x : Rid) {db : DB} (ha : InvA db) (hq : InvQ db) (c : Cmd) 
       · obtain ⟨hq', hb⟩ := h2.finish (hq2 r2 (SameCore.refl _))
         exact ⟨hq', by rw [hb, ho r2 (SameCore.refl _)]; omega⟩
     have hor : openR x r = 0 := by rw [openR_eq, hnq, hnp]; simp [b2i]
-    split
-    · rename_i fr _
-      have := hfin _ _ (h1.modKey c.key (fun k => { k with cell := some (applyFrame k.cell fr).1 })) rfl rfl rfl rfl rfl
-      refine ⟨this.1.ctrMod _, ?_⟩
-      rw [answered_mk x _ _ _ _ _ (by decide), openN_ctrMod, this.2]; omega
-    · have := hfin _ _ h1 rfl rfl rfl rfl rfl
-      refine ⟨this.1.ctrMod _, ?_⟩
-      rw [answered_mk x _ _ _ _ _ (by decide), openN_ctrMod, this.2]; omega
+    have hrl : InvQ (db.relockHold c h) ∧ openN x (db.relockHold c h) = openN x db - openR x r := by
+      unfold DB.relockHold
+      simp only []
+      split
+      · rename_i fr _
+        have := hfin _ _ (h1.modKey c.key (fun k => { k with cell := some (applyFrame k.cell fr).1 })) rfl rfl rfl rfl rfl
+        exact ⟨this.1.ctrMod _, by rw [openN_ctrMod, this.2]⟩
+      · have := hfin _ _ h1 rfl rfl rfl rfl rfl
+        exact ⟨this.1.ctrMod _, by rw [openN_ctrMod, this.2]⟩
+    have hw := wake_cons x (ha.relockHold c h (classifyLock_relock ha e)) hrl.1 c.key
+      [mkReply c R_SUCCED ((db.relockHold c h).getKey c.key).locked ((db.relockHold c h).getR h).depth (db.curData c.key)]
+    refine ⟨hw.1, ?_⟩
+    rw [hw.2, answered_mk x _ _ _ _ _ (by decide), hrl.2]; omega
   | grant =>
     have hca := hs.2.1 e
     obtain ⟨r0, f0, f1, f2, f3, f4, f5, f6⟩ := newRec_findR ha c
